@@ -24,6 +24,7 @@ CLI:  python3 -m harness.props.pyfun_util <pid> [--write-snapshot]
 import concurrent.futures
 import difflib
 import importlib
+import json
 import os
 import random
 import re
@@ -300,6 +301,18 @@ def check_generated(ctx, pid, items=None, ncases=None):
     # ---- 4. differential validation (+ search of a gen/model disagreement) ---------------
     if text is not None and usable:
         _differential(ctx, pid, mod, text, infos, ncases, cov, fail, res)
+    # compact summary, most important part last (Ctx.broken_obligation keeps the last 4000 characters)
+    if res["problems"]:
+        parts = []
+        for pb in res["problems"][:3]:
+            parts.append("[pyfun] %s\n%s" % (pb["what"], pb["detail"][:1100]))
+        fc = first_case(res)
+        if fc is not None:
+            parts.append("[pyfun] first input on which the regenerated function and the model (or the live code) differ: "
+                         + json.dumps(fc, sort_keys=True)[:700])
+        res["detail"] = "\n" + "\n".join(parts)
+        res["first_case"] = fc
+    cov["problems"] = [pb["what"] for pb in res["problems"]]
     cov["wall_s"] = {"snapshot_theorems": round(t1 - t0, 1), "regenerate_compare_reprove": round(t2 - t1, 1),
                      "differential": round(time.time() - t2, 1)}
     return res
